@@ -34,10 +34,18 @@ pub struct Config {
     /// a fork during an import is not applied when its common ancestor is the scan's start point
     #[serde(default)]
     pub neut_back_to_scan_start: bool,
+    /// import(t) with t <= highest stored block on a node whose stored blocks were rolled back is
+    /// not judged against the canonical chain (the importer does not consult the chain then)
+    #[serde(default = "yes")]
+    pub neut_noop_on_stale: bool,
     /// runs with pruning: smallest `keep` any pruner is given; forks are at most `keep - 14` deep
     /// (production: keep = k >= deepest possible roll-back). `None`: nobody prunes, forks unbounded
     #[serde(default)]
     pub prune_min_keep: Option<u64>,
+}
+
+fn yes() -> bool {
+    true
 }
 
 #[derive(Clone, Debug, Serialize, Deserialize, PartialEq)]
@@ -80,20 +88,6 @@ pub enum Event {
     Prune { node: usize, keep: u64 },
 }
 
-impl Event {
-    pub fn kind(&self) -> &'static str {
-        match self {
-            Event::Grow { .. } => "grow",
-            Event::Fork { .. } => "fork",
-            Event::Import { .. } => "import",
-            Event::Sign { .. } => "sign",
-            Event::SignAll { .. } => "signall",
-            Event::Restart { .. } => "restart",
-            Event::Prune { .. } => "prune",
-        }
-    }
-}
-
 #[derive(Clone, Debug)]
 pub struct Viol {
     pub clause: String,
@@ -120,7 +114,6 @@ pub struct World {
     pub fp: Fingerprint,
     pub checked_imports: u64,
     pub faults_fired: u64,
-    pub rollbacks_seen_before: u64,
     pub event_index: usize,
     ref_seq: u64,
 }
@@ -150,7 +143,6 @@ impl World {
             server.lock().unwrap().db_paths[i] = db.clone();
             let live = open_live(&db, nc, &server, i).expect("open node database");
             nodes.push(Node {
-                idx: i,
                 db,
                 cfg: nc.clone(),
                 live: Some(live),
@@ -177,7 +169,6 @@ impl World {
             fp: Fingerprint::new(),
             checked_imports: 0,
             faults_fired: 0,
-            rollbacks_seen_before: 0,
             event_index: 0,
             ref_seq: 0,
         }
@@ -341,7 +332,21 @@ impl World {
             self.hit("sim_imports_checked_noop");
         } else {
             self.hit("probe_noop_import_on_stale_node");
-            return Ok(());
+            if self.cfg.neut_noop_on_stale {
+                self.hit("neutralised_noop_import_on_stale_node");
+                return Ok(());
+            }
+            // judged by the statement: what the node holds up to the target must be canonical
+            let want = oracle::expected(&chain, target, p_obs);
+            let mut got = after.clone();
+            got.blocks.retain(|b| b.0 <= target);
+            let keep: BTreeSet<String> = got.blocks.iter().map(|b| b.2.clone()).collect();
+            got.txs.retain(|t| keep.contains(&t.1));
+            got.roots.retain(|r| r.1 - 1 <= target);
+            got.legacy_roots.retain(|r| r.1 - 1 <= target);
+            if let Some((clause, detail)) = oracle::diff(&got, &want, "stale-") {
+                return Err(viol(&clause, format!("node {n} after import({target}) (highest stored {h_before:?}, blocks at or below the target were rolled back since): {detail}")));
+            }
         }
         self.checked_imports += 1;
         Ok(())
@@ -378,6 +383,16 @@ impl World {
             }
         }
         let before = Snapshot::read(&self.nodes[n].db);
+        if matches!(via, Via::Sign(_))
+            && self.nodes[n].stale
+            && before.highest().is_some_and(|h| target <= h)
+            && self.cfg.neut_noop_on_stale
+        {
+            // nothing would be judged (see `neut_noop_on_stale`): the node offers a root of the
+            // abandoned branch, or fails to build one
+            self.hit("probe_sign_on_stale_node");
+            via = Via::Plain;
+        }
         let (fail_at, crash, reader_err_at) = match fault {
             Some(Fault::DbCrash { k }) => (Some(*k), true, None),
             Some(Fault::DbTransient { k }) => (Some(*k), false, None),
@@ -433,8 +448,9 @@ impl World {
         }
         if mid_fired {
             self.hit("probe_fork_during_import");
-            // a fork in the middle of the import affects the other nodes like any fork
-            self.mark_stale_after_fork(Some(n));
+            // a fork in the middle of the import affects every node like any fork (the importing
+            // node too if it did not get to apply the roll-back)
+            self.mark_stale_after_fork();
         }
         if db_fired || reader_fired || timeout_fired {
             self.faults_fired += 1;
@@ -514,7 +530,9 @@ impl World {
                 let Via::Sign(legacy) = via else { return Ok(None) };
                 if self.nodes[n].stale {
                     self.hit("probe_sign_on_stale_node");
-                    return Ok(None);
+                    if self.cfg.neut_noop_on_stale {
+                        return Ok(None);
+                    }
                 }
                 let depth = after.highest().unwrap_or(0);
                 let partial = (target + 1) % RANGE != 0;
@@ -544,12 +562,9 @@ impl World {
         }
     }
 
-    fn mark_stale_after_fork(&mut self, except: Option<usize>) {
+    fn mark_stale_after_fork(&mut self) {
         let versions_last = self.server.lock().unwrap().versions.last().cloned().unwrap_or_default();
         for n in 0..self.nodes.len() {
-            if Some(n) == except {
-                continue;
-            }
             let snap = Snapshot::read(&self.nodes[n].db);
             let affected = snap.blocks.iter().any(|b| !versions_last.contains(&hex::decode(&b.2).unwrap_or_default()));
             if affected {
@@ -588,7 +603,7 @@ impl World {
                     *self.counters.entry("sim_blocks".into()).or_default() += nl;
                     (fp, d)
                 };
-                self.mark_stale_after_fork(None);
+                self.mark_stale_after_fork();
                 self.log.push(format!("fork depth {depth} -> common block {fp:?}, tip {:?}", self.tip()));
                 self.fp.add("F");
                 self.hit("sim_forks");
@@ -871,20 +886,51 @@ pub fn gen_config(rng: &mut Rng) -> (Config, GenParams) {
         first_slot: if rng.chance(0.25) { 0 } else { rng.range(1, 60) },
         tx_weights,
         agency: !fault_free && rng.chance(0.25),
-        neut_below_first: rng.chance(0.8),
-        neut_sign_depth: rng.chance(0.8),
-        neut_restart_after_failure: rng.chance(0.75),
-        clamp_targets: rng.chance(0.8),
-        neut_back_to_scan_start: rng.chance(0.8),
+        neut_below_first: rng.chance(0.88),
+        neut_sign_depth: rng.chance(0.88),
+        neut_restart_after_failure: rng.chance(0.85),
+        clamp_targets: rng.chance(0.88),
+        neut_back_to_scan_start: rng.chance(0.88),
+        neut_noop_on_stale: rng.chance(0.9),
         prune_min_keep,
     };
+    let mut cfg = cfg;
+    // harness debugging only (never set by ./check): force knobs, e.g. SIM_IMPORT_FORCE=agency=1,neut_all=1
+    if let Ok(force) = std::env::var("SIM_IMPORT_FORCE") {
+        for kv in force.split(',') {
+            match kv.trim() {
+                "agency=1" => cfg.agency = true,
+                "agency=0" => cfg.agency = false,
+                "neut_all=1" => {
+                    cfg.neut_below_first = true;
+                    cfg.neut_sign_depth = true;
+                    cfg.neut_restart_after_failure = true;
+                    cfg.clamp_targets = true;
+                    cfg.neut_back_to_scan_start = true;
+                    cfg.neut_noop_on_stale = true;
+                    for n in cfg.nodes.iter_mut() {
+                        n.chunk = None;
+                    }
+                }
+                "neut_all=0" => {
+                    cfg.neut_below_first = false;
+                    cfg.neut_sign_depth = false;
+                    cfg.neut_restart_after_failure = false;
+                    cfg.clamp_targets = false;
+                    cfg.neut_back_to_scan_start = false;
+                    cfg.neut_noop_on_stale = false;
+                }
+                _ => {}
+            }
+        }
+    }
     let rate = |rng: &mut Rng, on: f64| if !fault_free && rng.chance(on) { rng.log_uniform(0.04, 0.35) } else { 0.0 };
     let params = GenParams {
         steps: rng.range(10, 30) as usize,
         p_db_crash: rate(rng, 0.6),
         p_db_transient: rate(rng, 0.6),
         p_reader_err: rate(rng, 0.5),
-        p_mid_fork: if rng.chance(0.4) { rng.log_uniform(0.05, 0.3) } else { 0.0 },
+        p_mid_fork: if rng.chance(0.5) { rng.log_uniform(0.08, 0.4) } else { 0.0 },
         fault_free,
     };
     (cfg, params)
@@ -995,8 +1041,22 @@ pub fn gen_event(rng: &mut Rng, p: &GenParams, w: &World) -> Event {
             let fault = pick_fault(rng, p, w, node);
             let mid_fork = if p.p_mid_fork > 0.0 && rng.chance(p.p_mid_fork) {
                 let calls = w.nodes[node].last_reader_calls.max(6);
-                let (depth, new_len) = pick_fork(rng, w);
-                Some(MidFork { at_call: rng.below(calls * 5 / 4), depth, new_len, seed: rng.next_u64() })
+                let h = w.snaps[node].highest();
+                let span = target.min(tip).saturating_sub(h.unwrap_or(0));
+                if span >= 3 && rng.chance(0.55) {
+                    // aimed: when call k is answered the read pointer is about k-1 blocks past the
+                    // scan's start; fork a few blocks behind it so that the roll-back lands inside
+                    // the streamer's buffer (or just before it)
+                    let k = rng.range(2, span.min(60));
+                    let back = rng.range(1, 4);
+                    let pointer = h.map_or(w.cfg.first_number + k - 2, |h| h + k - 1);
+                    let ancestor = pointer.saturating_sub(back);
+                    let depth = tip.saturating_sub(ancestor).max(1);
+                    Some(MidFork { at_call: k, depth, new_len: depth + rng.range(0, 6), seed: rng.next_u64() })
+                } else {
+                    let (depth, new_len) = pick_fork(rng, w);
+                    Some(MidFork { at_call: rng.below(calls * 5 / 4), depth, new_len, seed: rng.next_u64() })
+                }
             } else {
                 None
             };
@@ -1005,12 +1065,19 @@ pub fn gen_event(rng: &mut Rng, p: &GenParams, w: &World) -> Event {
         3 | 4 => {
             let legacy = rng.chance(0.4);
             let all = nn > 1 && rng.chance(0.5);
-            let mut beacon = match rng.weighted(&[40, 40, 20]) {
+            let mut beacon = match rng.weighted(&[35, 30, 15, 20]) {
                 0 => tip,
                 1 => rng.range(0, tip),
-                _ => {
+                2 => {
                     let h = w.snaps[rng.index(nn)].highest().unwrap_or(tip);
                     h.min(tip)
+                }
+                _ => {
+                    // inside the last, still incomplete block range of a node: blocks beyond the
+                    // beacon are stored but the range has no cached root yet
+                    let h = w.snaps[rng.index(nn)].highest().unwrap_or(tip).min(tip);
+                    let r0 = range_start(h);
+                    if h > r0 { rng.range(r0, h - 1) } else { h }
                 }
             };
             if legacy || rng.chance(0.3) {
